@@ -1,6 +1,7 @@
 package sign
 
 import (
+	"errors"
 	"fmt"
 
 	"github.com/taurusgroup/multi-party-sig/internal/round"
@@ -19,6 +20,12 @@ const (
 
 func StartSignCommon(taproot bool, result *keygen.Config, signers []party.ID, messageHash []byte) protocol.StartFunc {
 	return func(sessionID []byte) (round.Session, error) {
+		if result == nil || result.PublicKey == nil || result.VerificationShares == nil {
+			return nil, errors.New("sign.StartSign: config is nil")
+		}
+		if len(messageHash) == 0 {
+			return nil, errors.New("sign.StartSign: message is empty")
+		}
 		info := round.Info{
 			FinalRoundNumber: protocolRounds,
 			SelfID:           result.ID,
@@ -35,6 +42,12 @@ func StartSignCommon(taproot bool, result *keygen.Config, signers []party.ID, me
 		helper, err := round.NewSession(info, sessionID, nil)
 		if err != nil {
 			return nil, fmt.Errorf("sign.StartSign: %w", err)
+		}
+		// every signer must hold a share of the key
+		for _, id := range helper.PartyIDs() {
+			if _, ok := result.VerificationShares.Points[id]; !ok {
+				return nil, fmt.Errorf("sign.StartSign: signer %s is not a shareholder", id)
+			}
 		}
 		return &round1{
 			Helper:  helper,
